@@ -209,7 +209,16 @@ func newStreamCodec(rwc io.ReadWriteCloser, f streamEncoding) *streamCodec {
 
 func (c *streamCodec) Encode(ctx context.Context, m *capnp.Message) error {
 	c.wc.setWriteContext(ctx)
-	return c.enc.Encode(m)
+	c.wc.written = 0
+	err := c.enc.Encode(m)
+	if err != nil && c.wc.written > 0 {
+		// Part of the message is on the wire, so the stream is broken.
+		// The encoder wraps the writer's error, and a message is
+		// written with several calls to Write, so this cannot be
+		// seen from the type of err or from a single short write.
+		return partialWriteError{err}
+	}
+	return err
 }
 
 func (c *streamCodec) Decode(ctx context.Context) (*capnp.Message, error) {
@@ -367,6 +376,7 @@ type ctxWriteCloser struct {
 	io.WriteCloser
 	ctx                 context.Context
 	partialWriteTimeout time.Duration
+	written             int // bytes written since the current message was started
 }
 
 // Write bytes to a writer while making a best effort to
@@ -375,6 +385,7 @@ type ctxWriteCloser struct {
 // ignore the Done signal to avoid partial writes.
 func (wc *ctxWriteCloser) Write(b []byte) (int, error) {
 	n, err := wc.write(b)
+	wc.written += n
 	if n > 0 && n < len(b) {
 		err = partialWriteError{err}
 	}
